@@ -1,11 +1,11 @@
 (* C17  Cluster nodes agree on topic placement (consistent-hash ring) and on at
    most one leader per term (election).  Theorems only; each is closed by
-   [exact] of a lemma of Pure/RingProofs.v (ring).
+   [exact] of a lemma of Pure/RingProofs.v (ring) or Sys/ElectionProofs.v (election).
    The hash function and the digest are universally quantified: the
    statements hold for crc32, for the package tests' fake hash and for any
    other function. *)
 From Coq Require Import NArith ZArith List Bool Permutation.
-From Tinode Require Import Pure.Ring Pure.RingProofs.
+From Tinode Require Import Pure.Ring Pure.RingProofs Sys.Election Sys.ElectionProofs.
 Import ListNotations.
 
 (* ------------------------------------------------------------------ *)
@@ -144,3 +144,122 @@ Example c17_ring_example :
   length (rkeys r) = 9 /\ In (ring_get hash r [116; 49]%N) [[97]; [98]; [49; 97]]%N /\
   length (ring_signature r) = 20.
 Proof. vm_compute. repeat split; auto. Qed.
+
+(* ------------------------------------------------------------------ *)
+(* B. the election (model Sys/Election.v).  [run cfg evs] is the state after
+   ANY finite sequence of events: heartbeat ticks, vote requests and replies
+   delivered in any order, lost, or failed with an RPC error, election timeouts,
+   health checks delivered in any order or dropped.  Any number of configured
+   nodes (NoDup list); nothing is bounded. *)
+
+(* a node's term never decreases *)
+Theorem c17_el_term_monotone : forall cfg evs evs' n,
+  term (loc (run cfg evs) n) <= term (loc (run cfg (evs ++ evs')) n).
+Proof. exact term_monotone. Qed.
+Print Assumptions c17_el_term_monotone.
+
+(* at most one vote per node per term: a vote once given (by a yes-reply or by
+   standing as candidate) is never given to anybody else *)
+Theorem c17_el_one_vote_per_term : forall cfg, NoDup (cfg_nodes cfg) ->
+  forall evs evs' t m c c',
+  votes (run cfg evs) t m = Some c -> votes (run cfg (evs ++ evs')) t m = Some c' -> c = c'.
+Proof. exact one_vote_per_term. Qed.
+Print Assumptions c17_el_one_vote_per_term.
+
+(* the ghost [votes] is what the code does: a yes-reply comes only from a node
+   whose term was below the request's and which had not voted in that term, it
+   records the vote and raises the node's term to the request's *)
+Theorem c17_el_grant : forall cfg, NoDup (cfg_nodes cfg) -> forall evs c t m rt,
+  let s := run cfg evs in
+  rpcs s c t m = ReqFlying ->
+  rpcs (deliver_req cfg s c t m) c t m = RepFlying (Granted rt) ->
+  votes s t m = None /\ votes (deliver_req cfg s c t m) t m = Some c /\ rt = t /\
+  term (loc s m) < t /\ term (loc (deliver_req cfg s c t m) m) = t.
+Proof. exact grant_run. Qed.
+Print Assumptions c17_el_grant.
+
+(* the threshold as written, (len(c.nodes)+1)>>1 + 1 with c.nodes = the OTHER
+   configured nodes, is the smallest strict majority of ALL configured nodes *)
+Theorem c17_el_threshold : forall cfg, NoDup (cfg_nodes cfg) -> forall n, In n (cfg_nodes cfg) ->
+  length (cfg_nodes cfg) < 2 * expect_votes cfg n /\ 2 * (expect_votes cfg n - 1) <= length (cfg_nodes cfg).
+Proof. exact expect_votes_majority. Qed.
+Print Assumptions c17_el_threshold.
+
+(* a node that considers itself leader in term T holds the term-T votes of a
+   strict majority of all configured nodes *)
+Theorem c17_el_leader_has_majority : forall cfg, NoDup (cfg_nodes cfg) -> forall evs n,
+  let s := run cfg evs in
+  leader (loc s n) = Some n -> length (cfg_nodes cfg) < 2 * V cfg s n (term (loc s n)).
+Proof. exact leader_has_majority. Qed.
+Print Assumptions c17_el_leader_has_majority.
+
+(* no two nodes consider themselves leader in the same term *)
+Theorem c17_el_safety : forall cfg, NoDup (cfg_nodes cfg) -> forall evs n n',
+  let s := run cfg evs in
+  leader (loc s n) = Some n -> leader (loc s n') = Some n' ->
+  term (loc s n) = term (loc s n') -> n = n'.
+Proof. exact safety. Qed.
+Print Assumptions c17_el_safety.
+
+(* a health check of a lower term changes nothing at the receiver *)
+Theorem c17_el_stale_ignored : forall s idx h n,
+  nth_error (hnet s) idx = Some h -> h_term h < term (loc s (h_to h)) ->
+  loc (deliver_health s idx) n = loc s n.
+Proof. exact stale_ignored. Qed.
+Print Assumptions c17_el_stale_ignored.
+
+(* an accepted health check: leader and term are adopted at once; the node list
+   only on a check that finds rehashSkipped already set *)
+Theorem c17_el_health_adopts : forall s idx h,
+  nth_error (hnet s) idx = Some h ->
+  let l := loc s (h_to h) in
+  let l' := loc (deliver_health s idx) (h_to h) in
+  electing l = None -> term l <= h_term h ->
+  term l' = h_term h /\ leader l' = Some (h_leader h) /\ missed l' = 0 /\ active_nodes l' = active_nodes l /\
+  (if list_eqb (h_sig h) (sig_of (ring_nodes l)) then
+     ring_nodes l' = ring_nodes l /\ rehash_skipped l' = rehash_skipped l
+   else if rehash_skipped l then ring_nodes l' = h_nodes h /\ rehash_skipped l' = false
+   else ring_nodes l' = ring_nodes l /\ rehash_skipped l' = true).
+Proof. exact health_adopts. Qed.
+Print Assumptions c17_el_health_adopts.
+
+(* FINDING 1 (lag): "every node that accepts a health check adopts the ring
+   signature" is false as stated: the first check with a new signature only sets
+   rehashSkipped *)
+Theorem c17_el_adopts_ring_refuted : ~ adopts_ring_statement cfg3.
+Proof. exact adopts_ring_refuted. Qed.
+Print Assumptions c17_el_adopts_ring_refuted.
+
+(* FINDING 2: a newly elected leader advertises the signature of the ring it
+   adopted from its predecessor together with its own, never updated,
+   activeNodes; a follower with another ring then rehashes to a list that does
+   not give the advertised signature, on every second check, for ever (all nodes
+   up, all checks delivered and answered: shown for the first 41 rounds) *)
+Theorem c17_el_leader_list_matches_ring_refuted : ~ leader_list_matches_ring_statement cfg3.
+Proof. exact leader_list_matches_ring_refuted. Qed.
+Print Assumptions c17_el_leader_list_matches_ring_refuted.
+
+Theorem c17_el_ring_divergence_persists :
+  forall k, k <= 40 -> diverged (run cfg3 (evs_new_leader ++ rounds (S k))) = true.
+Proof. exact ring_divergence_persists. Qed.
+Print Assumptions c17_el_ring_divergence_persists.
+
+(* isPartitioned as written <-> the active list is no more than half of the configured nodes *)
+Theorem c17_el_is_partitioned : forall cfg, NoDup (cfg_nodes cfg) -> forall s n, In n (cfg_nodes cfg) ->
+  (is_partitioned cfg s n = true <-> 2 * length (active_nodes (loc s n)) <= length (cfg_nodes cfg)).
+Proof. exact is_partitioned_iff. Qed.
+Print Assumptions c17_el_is_partitioned.
+
+(* a leader whose check of some peer fails for the configured number of times
+   recomputes the active list = itself + the peers below the limit, and from
+   then on answers client requests with 502 if that is no more than half *)
+Theorem c17_el_partitioned_stops : forall cfg, NoDup (cfg_nodes cfg) -> forall s n d ok,
+  In n (cfg_nodes cfg) ->
+  electing (loc s n) = None -> leader (loc s n) = Some n ->
+  (exists p, In p (peers cfg n) /\ mem p ok = false /\ S (fail_count (loc s n) p) = cfg_fail_limit cfg) ->
+  let s' := tick cfg s n d ok in
+  let reach := filter (fun p => fail_count (loc s' n) p <? cfg_fail_limit cfg) (peers cfg n) in
+  active_nodes (loc s' n) = n :: reach /\
+  (2 * (1 + length reach) <= length (cfg_nodes cfg) -> dispatch cfg s' n = Err502).
+Proof. exact partitioned_stops. Qed.
+Print Assumptions c17_el_partitioned_stops.
